@@ -14,6 +14,7 @@ import TlxVerif.Model.C18Old
 import TlxVerif.Proofs.C18Basic
 import TlxVerif.Proofs.C18Search
 import TlxVerif.Proofs.C18Find
+import TlxVerif.Proofs.C18Huge
 namespace TlxVerif.C18
 open Spec
 
@@ -406,6 +407,33 @@ theorem findLastNotOf_eq (h s : Bytes) (pos : Nat) (hsz : h.length < 18446744073
 
 example : Model.findLastOf [97, 0x80, 0, 98] [0, 0x80] npos = 2 ∧ Model.findLastNotOf [97, 98, 98] [98] npos = 0 ∧
     Model.findLastNotOf [] [98] npos = npos := by decide
+
+/-! ## huge views (lengths around 2^31 / 2^32)
+
+The correspondence also runs views far too long to be written as byte lists: `(off, len)` into a
+sparse memory (`Model/C18Huge.lean`).  They are answered by windowed evaluators; these theorems tie the
+evaluators of the comparison family to the specification on the denoted bytes `Huge.den v`. -/
+
+/-- whenever the windowed `compare` of two views answers, that answer is the standard's `compare`
+of the byte strings the views denote — in particular the length rule after an equal common prefix
+(`|a| = 5`, `|b| = 2^32 + 5` at the same address gives −1, not 0) -/
+theorem huge_compare_sound (v w : Huge.View) (e : Bool) (r : Int) (h : Huge.compare v w e = some r) :
+    Spec.compare (Huge.den v) (Huge.den w) = r :=
+  Huge.compare_sound v w e r h
+
+/-- … and therefore what the transliterated `StringView::compare` computes on those bytes -/
+theorem huge_compare_model (v w : Huge.View) (e : Bool) (r : Int) (h : Huge.compare v w e = some r) :
+    Model.compare (Huge.den v) (Huge.den w) = r := by
+  rw [compare_eq]; exact Huge.compare_sound v w e r h
+
+/-- `substr` of a huge view: same exception condition, offset and denoted bytes as the standard's -/
+theorem huge_substr_sound (v : Huge.View) (pos n : Nat) :
+    Spec.substr (Huge.den v) pos n = (Huge.substr v pos n).map fun r => (pos, Huge.den r) :=
+  Huge.substr_sound v pos n
+
+example : Huge.compare ⟨0, 5⟩ ⟨0, 4294967301⟩ false = some (-1) ∧
+    Huge.compare ⟨100, 2147483653⟩ ⟨100, 5⟩ false = some 1 ∧
+    (Huge.compare ⟨2147483640, 20⟩ ⟨0, 4294967301⟩ false).isSome = true := by decide
 
 /-! ## The defects of the pinned tree, as machine-checked disagreements with the spec -/
 
